@@ -520,7 +520,8 @@ func setGenExpr(t *schema.Table, c *schema.Column, f int64) error {
 	if !sqlx.Has(t.Attrs, &s) {
 		return fmt.Errorf("missing CREATE statement for table: %q", t.Name)
 	}
-	re, err := regexp.Compile(fmt.Sprintf("(?:[(,]\\s*)[\"`]*(%s)[\"`]*[^,]*(?i:GENERATED\\s+ALWAYS)*\\s*(?i:AS){1}\\s*\\(", c.Name))
+	// The column name is followed by its type, which may hold a comma (e.g. numeric(10,2)), and optional constraints.
+	re, err := regexp.Compile(fmt.Sprintf("(?:[(,]\\s*)[\"`]*(%s)[\"`]*\\s(?:[^,()]|\\([^()]*\\))*?(?i:GENERATED\\s+ALWAYS)*\\s*(?i:\\bAS){1}\\s*\\(", regexp.QuoteMeta(c.Name)))
 	if err != nil {
 		return err
 	}
